@@ -66,27 +66,29 @@ type pending struct {
 }
 
 type run struct {
-	c          *simkit.Ctx
-	bubble     bool
-	disk, ewl  *simkit.SimDisk
-	se         *triekit.StateEnv
-	q          interface{ Add([]byte) []byte }
-	qIdx       []int
-	qSize      int
-	blocks     []blockRec // chain; blocks[0] is genesis (empty state)
-	allRoots   map[string]int
-	m          model
-	blockedBy  int
-	restarted  bool
-	faultFired bool
-	parker     *simkit.Parker
-	pendings   []pending
-	snapDone   int
-	lastSnapIx int
-	mutOps     int // commits + prune calls, to tell whether something ran concurrently with a snapshot
-	nAcc       int
+	c           *simkit.Ctx
+	bubble      bool
+	disk, ewl   *simkit.SimDisk
+	se          *triekit.StateEnv
+	q           interface{ Add([]byte) []byte }
+	qIdx        []int
+	qSize       int
+	blocks      []blockRec // chain; blocks[0] is genesis (empty state)
+	allRoots    map[string]int
+	m           model
+	blockedBy   int
+	restarted   bool
+	faultFired  bool
+	parker      *simkit.Parker
+	pendings    []pending
+	snapDone    int
+	snapStarted int
+	lastSnapIx  int
+	mutOps      int // commits + prune calls, to tell whether something ran concurrently with a snapshot
+	nAcc        int
 
 	prunesAfterChange, rollbacks, bufferedPrunes, verifiedConcurrent int
+	rollbackWhileBlocked                                             bool
 }
 
 func (r *run) open(root []byte) bool {
@@ -156,6 +158,11 @@ func execute(c *simkit.Ctx, bubble bool) bool {
 	}
 	if bubble {
 		r.parker.ReleaseAll()
+	}
+	if bubble {
+		// workers still sleep BatchDelaySeconds after they left pruning-buffering mode: let them end
+		time.Sleep(time.Duration(c.Plan.Knob("delay", 0)+1) * time.Second)
+		synctest.Wait()
 	}
 	r.se.Close()
 	if bubble {
@@ -326,6 +333,7 @@ func (r *run) step(st *simkit.Step) {
 			r.mutOps++
 			if tsm.IsPruningBlocked() {
 				r.bufferedPrunes++
+				r.rollbackWhileBlocked = true
 			}
 		}
 		r.disarm(before)
@@ -370,6 +378,11 @@ func (r *run) step(st *simkit.Step) {
 		if st.Op == "checkpoint" && r.snapDone == 0 {
 			return
 		}
+		if len(r.pendings) > 0 || int(adb.GetNumCheckpoints()) < r.snapStarted {
+			// one snapshot/checkpoint at a time (the property quantifies over commits and prunes running next to ONE
+			// snapshot), and the previous worker must have ended (it still sleeps and writes its counter afterwards)
+			return
+		}
 		// candidates: final, live, not older than the last snapshot/checkpoint
 		var cand []int
 		for i := 1; i < len(r.blocks); i++ {
@@ -382,6 +395,7 @@ func (r *run) step(st *simkit.Step) {
 		}
 		i := cand[int(st.Int(0, 0))%len(cand)]
 		r.lastSnapIx = i
+		r.snapStarted++
 		b := r.blocks[i]
 		if st.Op == "snapshot" {
 			adb.SnapshotState(b.root)
@@ -399,7 +413,11 @@ func (r *run) step(st *simkit.Step) {
 			return
 		}
 		k := int(st.Int(0, 0)) % len(w)
-		c.Eventf("%d release %d/%d (%s)", c.CurStep, k, len(w), w[k].Label)
+		lbl := ""
+		for _, x := range w {
+			lbl += x.Label + " "
+		}
+		c.Eventf("%d release %d/%d (%s) all=[%s]", c.CurStep, k, len(w), w[k].Label, lbl)
 		r.parker.Release(k)
 	case "tick":
 		if !r.bubble {
@@ -563,7 +581,9 @@ func (r *run) finalGarbageCheck() {
 		}
 		r.m = m
 		r.blocks = append(r.blocks, blockRec{root: rh, m: m.clone()})
-		r.finalize(len(r.blocks)-2, noFault)
+		if i := len(r.blocks) - 2; i >= 1 && !r.blocks[i].final {
+			r.finalize(i, noFault)
+		}
 	}
 	r.checkLive()
 	if r.c.Failed("C09") {
@@ -595,7 +615,7 @@ func (r *run) finalGarbageCheck() {
 	}
 	if garbage > 0 {
 		r.c.Probe("garbage_nodes_runs")
-		r.c.Violate("C09", "pruned-nodes-not-removed", "trie disk", "%d node(s) on the trie disk belong to no live root although every dead root was pruned with pruning unblocked and the buffer drained (e.g. %s); %d blocks, queue size %d", garbage, example, len(r.blocks), r.qSize)
+		r.c.Violate("C09", "pruned-nodes-not-removed", garbageSite(r), "%d node(s) on the trie disk belong to no live root although every dead root was pruned with pruning unblocked and the buffer drained (e.g. %s); %d blocks, queue size %d", garbage, example, len(r.blocks), r.qSize)
 	} else {
 		r.c.Probe("garbage_free_runs")
 	}
@@ -657,4 +677,13 @@ func (r *run) drain() {
 		return
 	}
 	r.c.HarnessErr("drain did not terminate")
+}
+
+// garbageSite names the scenario class of left-over nodes: a rollback issued while pruning was blocked is
+// answered by the pruning manager with a plain cancel (the new root's nodes are never removed).
+func garbageSite(r *run) string {
+	if r.rollbackWhileBlocked {
+		return "rollback-while-pruning-blocked"
+	}
+	return "trie-disk"
 }
